@@ -6,7 +6,6 @@ open Glotaran
 
 def main (args : List String) : IO UInt32 := do
   match args with
-  | ["C19"] => Proto.runLoop C19.driverStep []; return 0
   | ["C02"] => Proto.runLoop C02.driverStep {}; return 0
   | ["C03"] => Proto.runLoop C03.driverStep {}; return 0
   | ["C15"] => Proto.runLoop C15.driverStep (); return 0
@@ -26,4 +25,5 @@ def main (args : List String) : IO UInt32 := do
   | ["C14"] => Proto.runLoop C14.driverStep {}; return 0
   | ["C10"] => Proto.runLoop (C10.driverStep C10.Generated.kernels) {}; return 0
   | ["C13"] => Proto.runLoop C13.driverStep {}; return 0
+  | ["C19"] => Proto.runLoop (C19.driverStep C19.Generated.accessors C19.Generated.convFns C19.Generated.extFns C19.Generated.inferDefaults) {}; return 0
   | _ => IO.eprintln s!"unknown driver {args}"; return 2
